@@ -43,6 +43,8 @@ def raw_config_option(r):
     body = bytearray([0])
     for _ in range(r.choice([0, 1, 1, 2, 3, 4])):
         k = gen.cfg_str(r, 12, nonempty=True) if r.random() < 0.95 else ""
+        if r.random() < 0.12:
+            k += r.choice(["\u00e9", "\u20ac", "\u00fc\u00df", "\U0001f600"])  # valid multi-byte UTF-8: not ASCII, must be rejected (or survive the cycle)
         c = r.random()
         if c < 0.3:
             item = k + "="
@@ -54,7 +56,8 @@ def raw_config_option(r):
             item = k + "==" + gen.cfg_str(r, 4)
         if not item:
             continue
-        body += bytes([len(item)]) + item.encode("ascii")
+        raw = item.encode("utf-8")
+        body += bytes([len(raw)]) + raw
     body.append(0)
     if r.random() < 0.15:
         body += r.randbytes(r.randint(1, 4))
